@@ -554,6 +554,29 @@ func runC05(cfg *Cfg, rec *ev.Rec) {
 			item++
 		}
 	}
+	// structured multi-chunk batches for the relational clause: entries that
+	// only ZIP-215 accepts (small-order key or R) sit in one 64-entry chunk
+	// while the entry at the same relative position of the neighbouring
+	// chunks is an ordinary valid one (chunk-offset arithmetic of the gates)
+	for b := 0; b < cfg.n(32, 1600); b++ {
+		ts := make([]gen.Triple, 136)
+		for i := range ts {
+			if i%5 == 4 {
+				ts[i] = gen.Torsion(rng, rng.Intn(8), rng.Intn(8), false, false, 0)
+			} else {
+				ts[i] = gen.Honest(rng, 0)
+			}
+		}
+		for k := 0; k < 10; k++ {
+			p := rng.Intn(136)
+			if rng.Intn(2) == 0 {
+				ts[p] = gen.NoncanonR(rng, s.so[rng.Intn(14)], 0)
+			} else {
+				ts[p] = gen.SmallKey(rng, s.so[rng.Intn(14)], gen.RandBelow(rng, ref.L), rng.Intn(8), 0)
+			}
+		}
+		judgeBatchRelation(rec, ts, rng.Int63())
+	}
 	n := cfg.n(2500, 150000)
 	for i := 0; i < n; i++ {
 		switch i % 8 {
